@@ -428,7 +428,7 @@ def r14_7(ctx):
     # the search itself, and the private helpers a later change may have cut it into
     from verifkit.known_names import KNOWN
     hosts = [fn] + [ctx.model.funcs[q] for q in sorted(seen) if q != fn.qname
-                    and ctx.model.funcs[q].name.startswith("_") and ctx.model.funcs[q].name not in KNOWN]
+                    and not ctx.model.funcs[q].name.endswith("__") and ctx.model.funcs[q].name not in KNOWN]
     sites = []
     for host in hosts:
         hinf = ctx.inf(host.qname)
